@@ -1829,12 +1829,16 @@ class Compiler:
 
     def _call_and_publish(self, call):
         # The global definitions made during the call become visible
-        # to the caller; the variables of the caller that merely share
-        # their name with an earlier global are left alone.
-        return template("__globals = rcontext.copy()") + call + template(
+        # to the caller (also when the call fails and the error is
+        # handled further out); the variables of the caller that merely
+        # share their name with an earlier global are left alone.
+        publish = template(
             "econtext.update([(k, v) for (k, v) in rcontext.items() "
             "if __globals.get(k, __marker) is not v])"
         )
+        return template("__globals = rcontext.copy()") + [ast.Try(
+            body=call, handlers=[], orelse=[], finalbody=publish,
+        )]
 
     def visit_DefineSlot(self, node):
         name = "__slot_%s" % mangle(node.name)
@@ -1846,8 +1850,8 @@ class Compiler:
         # rest of the macro.
         orelse = template(
             "__globals = rcontext.copy()\n"
-            "SLOT(__stream, econtext.copy(), rcontext)\n"
-            "econtext.update([(k, v) for (k, v) in rcontext.items() "
+            "try: SLOT(__stream, econtext.copy(), rcontext)\n"
+            "finally: econtext.update([(k, v) for (k, v) in rcontext.items() "
             "if __globals.get(k, __marker) is not v])",
             SLOT=name)
         test = ast.Compare(
